@@ -5,7 +5,7 @@
 #include <stdlib.h>
 #include <stdint.h>
 
-#define MAXEV 32
+#define MAXEV 4096
 static san_event_t ev[MAXEV]; static int nev; static int total;
 int san_count(void) { return total; }
 int san_nevents(void) { return nev; }
